@@ -358,6 +358,27 @@ func (c *Ctx) strEqFold(a, b *Term) (*Term, bool) {
 	if b.IsConst && minLen(a) > len(b.S) {
 		return c.False(), true
 	}
+	// the constant pieces of a concatenation must occur, in order, inside an equal constant
+	inOrder := func(k *Term, t *Term) bool {
+		rest := k.S
+		for _, p := range c.Flatten(t) {
+			if !p.IsConst {
+				continue
+			}
+			i := strings.Index(rest, p.S)
+			if i < 0 {
+				return false
+			}
+			rest = rest[i+len(p.S):]
+		}
+		return true
+	}
+	if a.IsConst && !b.IsConst && !inOrder(a, b) {
+		return c.False(), true
+	}
+	if b.IsConst && !a.IsConst && !inOrder(b, a) {
+		return c.False(), true
+	}
 	return nil, false
 }
 
